@@ -13,7 +13,7 @@ def main(tier: str, seed: int) -> int:
             "all answer sets; multiset equality on voc(P) with costs. non-trivial = math changed the statement and "
             "the outcome varies over instances")
     bounds = {"menu": len(fam.MENU), "literals": kmax, "binders": len(fam.BINDERS), "contexts": len(fam.CONTEXTS)}
-    return generic.family_main(PROP, tier, seed, fam.jobs(tier), rule, bounds)
+    return generic.family_main(PROP, tier, seed, generic.with_variants(fam.jobs(tier), tier), rule, dict(bounds, variants=True))
 
 
 def replay(path: str) -> int:
